@@ -22,7 +22,8 @@ ASSUMPTIONS = [
     'panics other than the R2 idiom (index/overflow/poisoned locks/plugin code) are outside R2',
 ]
 MANIFEST = {'text': 'proof (all normal paths) that the command handler sends exactly one text reply per command and that `close` only leaves its drain loop when the pipeline is disconnected and joins all threads; '
-                    'plus a deviance rule (level other) that no parse/split result of request text is unwrapped unguarded in the handler cone.'}
+                    'plus a deviance rule (level other) that no parse/split result of request text is unwrapped unguarded in the handler cone.'
+                    ' Added: integers parsed from the request reach allocation sizes, slice indices/range bounds and checked multiplications only behind a bound (taint rule with helper summaries).'}
 
 TEXT_VARIANT = 'Message::Text'
 PARSE_LIKE = re.compile(r'(split_once|rsplit_once|::parse|from_str|::get\b|::nth\b|strip_prefix|strip_suffix|::find\b|::position\b|as_u64|as_i64|as_str|as_array|as_object|as_bool|'
